@@ -418,7 +418,8 @@ def as_seq(ex, st, v, for_iter=False, allow_filtered=False):
     if isinstance(v, VDict):
         if v.items is not None:
             return [(st, VSeq([key_value(k) for k in v.items], kind='list'))]
-        raise Unsupported('iteration over a symbolic dict')
+        # a symbolic set/dict (e.g. a module-level registry that other code may have filled): unknown elements
+        return [(st, ex.fresh(st, 'list[opaque]', 'iter'))]
     if isinstance(v, VObj) and v.cls.startswith('$'):
         h = STUB_CLASSES[v.cls].get('__iter__')
         if h is None:
